@@ -26,7 +26,7 @@
                                  binary ones the mode is `InplaceRebind`.  Which one applies is read from
                                  the class on every run by the harness and confirmed by the correspondence. *)
 From Coq Require Import List Bool Arith QArith.
-From ACN Require Import Base.Num Base.ListX.
+From ACN Require Import Base.Num Base.ListX Gen.C12Shape.
 Import ListNotations.
 
 Definition station := nat.
@@ -172,6 +172,12 @@ Definition qcoeff := coeff (A := Q) 0.
 Definition qdenote := denote (A := Q) 0 1 Qplus Qmult (-1 # 1).
 Definition qceval := ceval (A := Q) 0 1 Qplus Qmult (-1 # 1).
 
+(* which in-place semantics the class under test has (tools/gen_c12.py reads it off the class body) *)
+Definition repo_inplace_mode : inplace_mode :=
+  if current_defines_inplace then InplaceRebind else InplaceReindex.
+Definition inplace_mode_eqb (a b : inplace_mode) : bool :=
+  match a, b with InplaceReindex, InplaceReindex | InplaceRebind, InplaceRebind => true | _, _ => false end.
+
 Record c12alg := {
   g_mode : inplace_mode;
   g_expr : cexpr Q;
@@ -181,4 +187,5 @@ Record c12alg := {
 
 Definition check_c12alg (c : c12alg) : bool :=
   let r := qdenote (g_mode c) (g_expr c) in
+  inplace_mode_eqb (g_mode c) repo_inplace_mode &&
   list_eqb Nat.eqb (keys r) (g_keys c) && list_eqb Qclose (map snd r) (g_vals c).
